@@ -1,6 +1,7 @@
 package c01
 
 import (
+	"strings"
 	"testing"
 	"time"
 
@@ -12,6 +13,8 @@ func TestC01(t *testing.T) {
 	nrun.Main(t, &nrun.Check{
 		ID: "C01", TestName: "TestC01", Plans: pscen.Plans(),
 		QuickTime: 75 * time.Second, ThorTime: 18 * time.Minute,
+		// the buffered/unbuffered hook pairing rides on these scenarios but is C14's subject
+		Keep: func(_, key string) bool { return !strings.HasPrefix(key, "hook-") },
 		Rule: "engine N: every order of application calls, request/response frame deliveries, timer ticks and injected faults (connection kill before/after handling, NOT_LEADER, UNKNOWN_TOPIC, MESSAGE_TOO_LARGE, REQUEST_TIMED_OUT after append, stalled request) within k deviations of the default order, for five producer scenarios (Flush, AbortBufferedRecords, PurgeTopicsFromClient, context cancel, Close as the concurrent disruptor); distinct = distinct terminal outcomes (per-record promise result classes) per scenario",
 		Assume: []string{"kfake is the broker", "synctests build of xsync (C31 covers the channel mutexes)", "goroutine micro-interleavings inside one event are the Go runtime's (C30/C03 engine-S harnesses cover the preemption level)"},
 	})
